@@ -220,6 +220,7 @@ def check(ctx):
     ctx.rule("R9", "sibling phases agree on window arithmetic: wherever a column taken from one physical line is used as a position in the joined logical line (get_logical_line), the lengths of the preceding physical lines are added when the logical line spans several", floor=2)
     ctx.rule("R10", "a cheap pre-check never answers 'no break here' for a text in which the scan would find one: the pattern tried before the token scan of find_next_break matches, as a bare substring, every spelling of every token type the scan stops at (END_TOK_TYPES) - the text it sees starts at the parser's error column, so a keyword can sit at its very beginning", floor=6)
     ctx.rule("R11", "whether a quoted word is a complete string is decided by the shared string pattern alone: every verdict of tools.check_quotes is a constant (decided by which ends carry a quote) or the match / no-match of a module-level RE_* pattern on the whole word - no second opinion computed from the text itself (endswith / count / slicing cannot tell an escaping backslash from an escaped one)", floor=1)
+    ctx.rule("R12", "what the second phase remembers during one walk does not outlive it: every attribute of the transformer that a method other than the constructor and ctxvisit *fills* during the walk (item store, add / append / update / setdefault) is re-bound by ctxvisit before the walk starts - emptying it after the walk is skipped when the walk leaves by an exception (RecursionError, Ctrl-C), and the next input is then wrapped with the previous input's answers (a memo of logical lines cuts the new command out of the old text)", floor=1)
     ctx.rule("R6", "line tables indexed by the parser's line numbers are split the way the parser counts lines (\\n only)", floor=2)
     ctx.rule("R5", "every verdict of the open-triple-quote scanner comes out of its quote- and comment-aware scan (or is 'nothing open' when no marker occurs at all); the line joiners ask only the scanner", floor=4)
     ctx.rule("R4", "the line returned by tools.subproc_toks is built only from slices of the source line and the literals '![' and ']'", floor=3)
@@ -559,6 +560,7 @@ def check(ctx):
     _window_offsets(ctx)
     _prefilter_complete(ctx)
     _quote_verdict_by_pattern(ctx)
+    _per_walk_state_reset(ctx)
 
 
 def _window_offsets(ctx):
@@ -729,6 +731,46 @@ def _scope_queries(ctx):
         foreign = sorted({a for a, _ in rd if a != stack and a in varying})
         ctx.ob("R7", st, f"apart from the binding stack `self.{stack}` the query reads only per-walk constants", not foreign, key=f"{name}|scope-query-reads-varying-state", where=loc(meths[name]), detail=f"reads self.{foreign[0]}, which other methods change during the walk" if foreign else None)
 
+
+
+def _per_walk_state_reset(ctx):
+    """R12: state filled during a walk is re-bound before the next walk starts."""
+    from ..engine.loader import class_methods
+
+    AS_ = "xonsh/parsers/ast.py"
+    am = ctx.repo.module(AS_)
+    ms = class_methods(am.cls("CtxAwareTransformer"))
+    cv = ms.get("ctxvisit")
+    if cv is None:
+        raise AnalysisError(f"{AS_}:CtxAwareTransformer.ctxvisit missing")
+    cfg = CFG(cv)
+    walk = [n for n in cfg.nodes if n.kind == "stmt" and any(call_name(c) == "self.visit" for c in calls_in(n.ast))]
+    if not walk:
+        raise AnalysisError(f"{AS_}:CtxAwareTransformer.ctxvisit: the walk (self.visit) was not found")
+    rebound = {}
+    for n in cfg.nodes:
+        if n.kind == "stmt" and isinstance(n.ast, (ast.Assign, ast.AnnAssign)):
+            for t in (n.ast.targets if isinstance(n.ast, ast.Assign) else [n.ast.target]):
+                if isinstance(t, ast.Attribute) and unparse(t.value) == "self":
+                    rebound.setdefault(t.attr, []).append(n)
+    FILL = {"add", "append", "update", "setdefault", "extend", "insert", "appendleft"}
+    filled = {}
+    for nm, f in ms.items():
+        if nm in ("__init__", "ctxvisit"):
+            continue
+        for x in walk_local(f):
+            if isinstance(x, ast.Assign):
+                for t in x.targets:
+                    if isinstance(t, ast.Subscript) and isinstance(t.value, ast.Attribute) and unparse(t.value.value) == "self":
+                        filled.setdefault(t.value.attr, (nm, x))
+            elif isinstance(x, ast.Call) and isinstance(x.func, ast.Attribute) and x.func.attr in FILL and isinstance(x.func.value, ast.Attribute) and unparse(x.func.value.value) == "self":
+                filled.setdefault(x.func.value.attr, (nm, x))
+    if not filled:
+        raise AnalysisError(f"{AS_}:CtxAwareTransformer: no state filled during the walk found (the scope stack is expected)")
+    for attr, (nm, site) in sorted(filled.items()):
+        before = [n for n in rebound.get(attr, []) if all(cfg.dominated(w, lambda m, n=n: m is n) for w in walk)]
+        ok = bool(before)
+        ctx.ob("R12", f"{AS_}:CtxAwareTransformer.ctxvisit", f"`self.{attr}` (filled by {nm} during the walk) is re-bound before the walk starts", ok, key=f"ctxvisit|per-walk-state-not-reset|{attr}", where=loc(site), detail=None if ok else f"`{short(site, 50)}` in {nm} fills it; ctxvisit does not bind it afresh ahead of self.visit(..): what a walk that ended in an exception left in it answers for the next input")
 
 
 def _prefilter_complete(ctx):
